@@ -266,7 +266,7 @@ NOT_APPLICABLE = {
 # Rules added after independent authors' seeded changes (rounds 2 and 3; DESIGN.md 9.10 - 9.12).  Appended to the
 # claim text by tools/gen_manifest.py so that the manifest says what the check decides today.
 LATER_RULES = {
-    "C01": "R01c placeholder emission never depends on the indent switch; R01d a split element is cut where the previous piece ended.",
+    "C01": "R01e the carried text of a subdivided match only grows or is flushed in _trim_match; R01c placeholder emission never depends on the indent switch; R01d a split element is cut where the previous piece ended.",
     "C02": "R02b an unmatched remainder is empty, non-code or wrapped as unparsable; R02e(3) an unparsable section starts at the first code token after the matched part. R02f every parsed variant pairs a templated file with the tree lexed and parsed from that same file.",
     "C03": "R03f Sequence.match buffers every Conditional/Indent element unconditionally (meta arms first, straight-line, continue). R03d a node's position is the hull of all its children; R03e buffered metas are emitted in grammar order.",
     "C04": "R04f no next() without default / R04g no mis-sized split unpacking outside the rule packages; R04h a variant's tree is known to exist where it is linted. R04i the python templater slices a string only after rendering accepted it.",
